@@ -355,7 +355,7 @@ theorem updateDeps_other {w : PWorld} {t : Oid} {m : Name} {specs : List PathSpe
 
 theorem updateDeps_otherAttr {w : PWorld} {t : Oid} {m : Name} {specs : List PathSpec} (hs : Scope w t m specs) {p : Name}
     (hp : ∀ s ∈ specs, s.root ≠ p) : updateDeps w t (some p) false = .ok w := by
-  obtain ⟨ct, hct, hm⟩ := hs.tcls
+  obtain ⟨ct, rs, hct, hm⟩ := hs.tcls
   unfold updateDeps
   rw [hct]
   simp only [hm]
@@ -550,7 +550,9 @@ theorem dispatchP_graph (p : Name) (old v : Val) : ∀ (ws : List DW) (w w' : PW
             split at h1 <;> simp only [Except.ok.injEq] at h1 <;> subst h1
             · exact hg
             · exact ⟨hg.1, hg.2⟩
-      exact this.trans (ih w1 w' h)
+      split at h
+      · simp only [Except.ok.injEq] at h; subst h; exact this
+      · exact this.trans (ih w1 w' h)
 
 theorem setParam_graph {w w' : PWorld} {o : Oid} {p : Name} {v : Val} (h : setParam w o p v = .ok w') :
     ∃ ob old, w.objs[o]? = some ob ∧ lookupVal ob.vals p = some old ∧ SameGraph (store w o ob p v) w' := by
